@@ -40,3 +40,12 @@ Print Assumptions C01_depth_bounded.
 Theorem C01_strtod_ref_ok : strtod_ok strtod_ref.
 Proof. exact strtod_ref_ok. Qed.
 Print Assumptions C01_strtod_ref_ok.
+
+(** non-vacuity: the hypotheses are satisfiable and the success branch is reached — "[1]" followed
+    by a byte outside the declared length parses to a two-block tree, both blocks live, end = 3 *)
+Theorem C01_nonvacuous :
+  strtod_ok strtod_ref /\ (3 <= length [91; 49; 93; 255])%nat /\
+  exists r t, cJSON_ParseWithLengthOpts strtod_ref never_fails [91; 49; 93; 255] 3 false = Ok r
+           /\ pr_tree r = Some t /\ pr_live r = 2 /\ blocks t = 2 /\ pr_end r = Some 3%nat.
+Proof. exact parse_safe_example. Qed.
+Print Assumptions C01_nonvacuous.
